@@ -154,8 +154,15 @@ func (rt *Runtime) newToken(t Token) uint64 {
 }
 
 // structTypeOf builds the marker struct type for a slot list. Field i+1 holds slot i.
-func structTypeOf(slots []Slot) reflect.Type {
-	sf := []reflect.StructField{{Name: "Struct", Type: markerType, Anonymous: true}}
+func structTypeOf(slots []Slot) reflect.Type { return structTypeOfM(slots, false) }
+
+// structTypeOfM: markerLast puts the embedded marker behind the fields (the marker may
+// be embedded anywhere in the struct); field i holds slot i then.
+func structTypeOfM(slots []Slot, markerLast bool) reflect.Type {
+	var sf []reflect.StructField
+	if !markerLast {
+		sf = append(sf, reflect.StructField{Name: "Struct", Type: markerType, Anonymous: true})
+	}
 	for i, s := range slots {
 		var f reflect.StructField
 		f.Type = Types[s.Type]
@@ -195,6 +202,9 @@ func structTypeOf(slots []Slot) reflect.Type {
 			f.Tag = reflect.StructTag(fmt.Sprintf(`argmapper:"%s"`, strings.Join(append([]string{tagName}, opts...), ",")))
 		}
 		sf = append(sf, f)
+	}
+	if markerLast {
+		sf = append(sf, reflect.StructField{Name: "Struct", Type: markerType, Anonymous: true})
 	}
 	return reflect.StructOf(sf)
 }
@@ -354,6 +364,9 @@ func Instantiate(w *World, sim *simrt.Sim, st *core.Stats) *Runtime {
 					sp = a.Label.Name
 				}
 				rt.args[i] = argmapper.NamedSubtype(sp, v, a.Label.Sub)
+			} else if a.Label.Sub != "" && i%2 == 1 {
+				// "If the name is an empty string, this is the equivalent to calling TypedSubtype"
+				rt.args[i] = argmapper.NamedSubtype("", v, a.Label.Sub)
 			} else {
 				rt.args[i] = argmapper.TypedSubtype(v, a.Label.Sub)
 			}
@@ -638,13 +651,20 @@ func (rt *Runtime) buildParty1(pi int) error {
 	}
 	var inT, outT []reflect.Type
 	var inStruct, outStruct reflect.Type
+	// (the marker may be embedded anywhere in a struct, but reflect.StructOf can embed a
+	// type with methods only as first field: marker-last forms cannot be made here)
+	markerLast := false
+	off := 1
+	if markerLast {
+		off = 0
+	}
 	switch p.InForm {
 	case FormPositional:
 		for _, s := range p.In {
 			inT = append(inT, Types[s.Type])
 		}
 	case FormStruct, FormPtrStruct, FormPtrPtrStruct:
-		inStruct = structTypeOf(p.In)
+		inStruct = structTypeOfM(p.In, markerLast)
 		switch p.InForm {
 		case FormPtrStruct:
 			inT = []reflect.Type{reflect.PtrTo(inStruct)}
@@ -678,12 +698,12 @@ func (rt *Runtime) buildParty1(pi int) error {
 			copy(vals, args)
 		case FormStruct:
 			for i := range p.In {
-				vals[i] = args[0].Field(i + 1)
+				vals[i] = args[0].Field(i + off)
 			}
 		case FormPtrPtrStruct:
 			if !args[0].IsNil() && !args[0].Elem().IsNil() {
 				for i := range p.In {
-					vals[i] = args[0].Elem().Elem().Field(i + 1)
+					vals[i] = args[0].Elem().Elem().Field(i + off)
 				}
 			}
 		case FormPtrStruct:
@@ -691,7 +711,7 @@ func (rt *Runtime) buildParty1(pi int) error {
 				rt.Online = append(rt.Online, Online{Class: "nil-struct-argument", Op: rt.curOp[rt.thread()], Party: pi, Detail: "pointer-struct parameter is nil"})
 			} else {
 				for i := range p.In {
-					vals[i] = args[0].Elem().Field(i + 1)
+					vals[i] = args[0].Elem().Field(i + off)
 				}
 			}
 		}
